@@ -406,7 +406,9 @@ func genCase(rt *rapid.T) c09Case {
 		n := c.Key.Capacity() - 32 - rapid.IntRange(0, 1).Draw(rt, "below")
 		c.Nonce = rapid.SliceOfN(rapid.Byte(), n, n).Draw(rt, "nonce-at-capacity")
 	} else {
-		c.Nonce = rapid.SliceOfN(rapid.Byte(), 1, 64).Draw(rt, "nonce")
+		// the 32-byte session key has to fit behind the nonce (a longer nonce makes every login
+		// fail, which is C08's subject)
+		c.Nonce = rapid.SliceOfN(rapid.Byte(), 1, minI(64, c.Key.Capacity()-32)).Draw(rt, "nonce")
 	}
 	capacity := c.Key.Capacity() - len(c.Nonce)
 	over := rapid.IntRange(0, 19).Draw(rt, "overcapacity") == 0 && capacity >= 32
